@@ -77,6 +77,12 @@ fn ops<D: Dom, V: VecN<D, N> + MaybeNeg, const N: usize>(ctx: &mut Ctx, u: [D; N
     // zero is the additive identity
     same::<D, N>(ctx, "zero", (cu + V::zero()).arr(), u);
     same::<D, N>(ctx, "zero", V::zero().arr(), [D::zero(); N]);
+    // ... and the identity is told apart from every other vector: is_zero() exactly when all components are zero
+    // (vectors compare their components exactly; C18 owns the approximate predicates of the other types)
+    for (w, cw) in [(u, cu), (v, cv), ([D::zero(); N], V::zero())] {
+        let all_zero = w.iter().all(|x| x.is_zero());
+        ctx.check(cw.is_zero() == all_zero, &key("zero/is_zero"), || format!("is_zero() = {} for {:?}", cw.is_zero(), w));
+    }
     same::<D, N>(ctx, "from_value", V::from_value(s).arr(), [s; N]);
     // compound assignment
     let mut t = cu;
